@@ -2,7 +2,9 @@ package main
 
 import (
 	"fmt"
+	"os"
 	"path/filepath"
+	"runtime"
 
 	"github.com/akalin/gopar/par1"
 )
@@ -19,6 +21,18 @@ func fcountsStr(r par1.VerifyResult) string {
 // p1 verify <mode> <indexPath> <alldata> FS SCHED
 // p1 repair <mode> <indexPath> <dbl> FS SCHED
 func p1(w []string) string {
+	if os.Getenv("VH_ALLOC") == "" {
+		return p1run(w)
+	}
+	// report the bytes allocated while the operation ran (C13/C19: memory in proportion to the input)
+	var m0, m1 runtime.MemStats
+	runtime.ReadMemStats(&m0)
+	res := p1run(w)
+	runtime.ReadMemStats(&m1)
+	return fmt.Sprintf("%s alloc=%d", res, m1.TotalAlloc-m0.TotalAlloc)
+}
+
+func p1run(w []string) string {
 	return guard(func() string {
 		op, mode := w[0], w[1]
 		w = w[2:]
